@@ -99,3 +99,20 @@ package backend
 // ParseObjectTags builds a map from the tagging header; it writes nothing the caller can see
 //@ func ParseObjectTags
 //@   frame none
+
+// ---- C04: names that stay where they are put -------------------------------------------------------
+// A name without "." / ".." segments, and an id that is a single path element, are opaque to the file system: joining
+// them below a directory stays below it (property of path resolution, trusted). The two predicates are specified over
+// the segments / bytes of the name, independent of how they are computed.
+//@ func HasDotSegment
+//@   pure
+//@   ensures {C04} [no-segment-is-dot-or-dotdot] !ret0 ==> forall i int :: 0 <= i && i < len(strings.Split(name, "/")) ==> strings.Split(name, "/")[i] != "." && strings.Split(name, "/")[i] != ".."
+//@   loop 1 invariant {C04} [segments-so-far] -1 <= rangeindex && forall i int :: 0 <= i && i <= rangeindex ==> strings.Split(name, "/")[i] != "." && strings.Split(name, "/")[i] != ".."
+//@ func IsPathComponent
+//@   pure
+//@   ensures {C04} [single-element] ret0 ==> s != "." && s != ".." && !strings.Contains(s, "/")
+// A copy source is accepted only if bucket/key carry no dot segment and the version id is a single path element.
+//@ func ParseCopySource
+//@   ensures {C04} [copy-source-is-opaque] err == nil ==> IsPathComponent(ret2) && !HasDotSegment(ret0 + "/" + ret1)
+//@ func GetStringFromPtr
+//@   pure
